@@ -242,6 +242,37 @@ func (e *Env) expr(x ast.Expr) (Val, types.Type, error) {
 		}
 		return Val{}, nil, errf("cannot slice %s", t)
 	case *ast.UnaryExpr:
+		if n.Op == token.AND {
+			// &x.f for a struct-valued (embedded) field: pointer to the embedded object
+			sel, ok := n.X.(*ast.SelectorExpr)
+			if !ok {
+				return Val{}, nil, errf("& is only supported on embedded struct fields")
+			}
+			bv, bt, err := e.expr(sel.X)
+			if err != nil {
+				return Val{}, nil, err
+			}
+			pt, ok := bt.Underlying().(*types.Pointer)
+			if !ok {
+				return Val{}, nil, errf("&x.f: x must be a pointer")
+			}
+			obj, path := lookupFieldAnyPkg(pt.Elem(), sel.Sel.Name)
+			if obj == nil {
+				return Val{}, nil, errf("no field %s", sel.Sel.Name)
+			}
+			l := f.derefLoc(f.termAs(bv, KRef, 0), pt.Elem())
+			for _, idx := range path {
+				if l.K != LObj {
+					return Val{}, nil, errf("&x.f: bad path")
+				}
+				l = f.fieldLoc(l, idx)
+			}
+			if l.K != LObj {
+				return Val{}, nil, errf("&x.f: f must be a struct-valued field")
+			}
+			rt := types.NewPointer(l.Typ)
+			return Val{K: KRef, T: l.Ref, Typ: rt}, rt, nil
+		}
 		v, t, err := e.expr(n.X)
 		if err != nil {
 			return Val{}, nil, err
@@ -842,6 +873,19 @@ func (e *Env) call(n *ast.CallExpr) (Val, types.Type, error) {
 		}
 		al := f.heapGet(old, "alloc", "(Array Int Bool)")
 		return Val{K: KBool, T: "(and (> " + ref + " 0) (not (select " + al + " " + ref + ")))"}, tBool, nil
+	case "samearr":
+		a, _, err := argv(0)
+		if err != nil {
+			return Val{}, nil, err
+		}
+		b, _, err := argv(1)
+		if err != nil {
+			return Val{}, nil, err
+		}
+		if a.K != KSlice || b.K != KSlice {
+			return Val{}, nil, errf("samearr on non-slices")
+		}
+		return Val{K: KBool, T: fmt.Sprintf("(= (s.arr %s) (s.arr %s))", a.T, b.T)}, tBool, nil
 	case "sameslice":
 		a, _, err := argv(0)
 		if err != nil {
